@@ -14,6 +14,7 @@ func init() {
 		Rule{ID: "R01c", Doc: "pool release precondition: non-nil, pool-born, capacity-preserving", Floor: 40, AllVariants: true, Run: r01c},
 		Rule{ID: "R01d", Doc: "every loop in the decode closure has a verified termination argument", Floor: 40, AllVariants: true, Run: r01d},
 		Rule{ID: "R01e", Doc: "decode errors are honoured", Floor: 60, AllVariants: true, Run: r01e},
+		Rule{ID: "R01g", Doc: "the decoder is given exactly the received bytes", Floor: 8, AllVariants: true, Run: r01g},
 		Rule{ID: "R01f", Doc: "narrowing conversions of lengths/offsets/counters are range-checked", Floor: 2, AllVariants: true, Run: r01f},
 		Rule{ID: "R03a", Doc: "a response is always assigned (used by R01e for rc.Response.Msg)", Floor: 6, Run: r03a},
 		Rule{ID: "R03f", Doc: "transport result contract (used by R01e: err == nil => message != nil)", Floor: 12, AllVariants: true, Run: r03f},
